@@ -16,6 +16,7 @@ package streams
 import (
 	"errors"
 	"io"
+	"math"
 )
 
 /*!
@@ -50,6 +51,12 @@ func (l *limitReadCloser) Read(p []byte) (n int, err error) {
 	}
 	if l.closed {
 		return 0, io.EOF
+	}
+	if l.N == math.MaxInt64 {
+		// l.N+1 below would overflow; no stream can be longer than this limit
+		n, err = l.R.Read(p)
+		l.N -= int64(n)
+		return n, err
 	}
 	if int64(len(p)) > (l.N + 1) {
 		p = p[0:(l.N + 1)]
